@@ -251,7 +251,8 @@ func runC18(c *Ctx) {
 	}
 	c.Fields(r4, rlm+"onLeave", "on_leave publication", "wamp.Publish", notTestament, map[string]string{"Topic": `^"wamp\.session\.on_leave"$`}, 1)
 	c.Reach(r4, rlm+"onJoin", "session joins the table before on_join is published", ReachSpec{Stop: `^send:%r\.actionChan<-closure:router\.\(\*realm\)\.onJoin\$1$`, Target: `^send:call:invoke:wamp\.Peer\.Send\[%r\.metaPeer\]`, Want: false})
-	c.R.Floor(r4, 30)
+	ruleLocalCopies(c, r4) // each subscription's meta event is built for that subscription; local subscribers get their own
+	c.R.Floor(r4, 38)
 
 	const r6 = "C18.R6 lookup tables stay consistent with the match policy (lookup/match answer what routing uses)"
 	ruleBrokerTables(c, r6)
@@ -293,7 +294,8 @@ func runC18(c *Ctx) {
 	for _, f := range []string{rlm + "sessionCount$2", rlm + "sessionList$2"} {
 		c.Has(r5, f, "count and list use the same authrole filter", `^call:slices\.Contains\(\^filter, call:wamp\.AsString\(range\(\^r\.clients\)#v\.Details\["authrole"\]\)#0\)$`, 1)
 	}
-	c.R.Floor(r5, 16)
+	ruleShutdownFlag(c, r5) // a kill is never mistaken for realm shutdown (which would skip on_leave, testaments and removal)
+	c.R.Floor(r5, 17)
 }
 
 // boundTarget resolves the method a `$bound` wrapper calls.
